@@ -701,7 +701,7 @@ func c42Search(t *testing.T, p c42Params, params map[string]any, maxDepth int, d
 		}
 		frontier = next
 		if os.Getenv("VERIF_C42_TRACE") != "" {
-			fmt.Printf("TRACE %s depth=%d frontier=%d states(mine)=%d transitions(mine)=%d seen=%d\n", p.name, depth, len(frontier), st.States, st.Transitions, len(seen))
+			fmt.Printf("TRACE %s %s depth=%d frontier=%d states(mine)=%d transitions(mine)=%d seen=%d\n", time.Now().Format("15:04:05.000"), p.name, depth, len(frontier), st.States, st.Transitions, len(seen))
 		}
 		if len(frontier) > 0 && depth == maxDepth {
 			st.Capped = fmt.Sprintf("depth horizon %d reached with %d open states (their continuation was checked)", maxDepth, len(frontier))
@@ -764,6 +764,36 @@ func c42Scenarios() []c42Params {
 	return []c42Params{mk(3, 3, 1, 1, false), mk(3, 2, 2, 0, false), mk(3, 2, 1, 3, false), mk(3, 3, 1, 2, false), mk(3, 2, 2, 1, false)}
 }
 
+// c42SharedStart returns a start instant common to all shard processes of this run (the first
+// process to arrive writes it into the cooperation directory). Deadlines are derived from it, so a
+// shard process that was started late does not drag the level barriers of the others past their own
+// deadlines.
+func c42SharedStart() time.Time {
+	r := vsched.Rep()
+	out := os.Getenv("VERIF_OUT")
+	if r.NShards <= 1 || out == "" || r.ReplayScenario() != "" {
+		return time.Now()
+	}
+	dir := filepath.Join(filepath.Dir(out), "coop")
+	_ = os.MkdirAll(dir, 0o755)
+	path := filepath.Join(dir, "START."+os.Getenv("VERIF_PROPERTY"))
+	if f, err := os.OpenFile(path+".tmp", os.O_CREATE|os.O_EXCL|os.O_WRONLY, 0o644); err == nil {
+		fmt.Fprintf(f, "%d", time.Now().UnixNano())
+		_ = f.Close()
+		_ = os.Rename(path+".tmp", path)
+	}
+	for i := 0; i < 2000; i++ {
+		if b, err := os.ReadFile(path); err == nil {
+			var ns int64
+			if _, err := fmt.Sscanf(string(b), "%d", &ns); err == nil {
+				return time.Unix(0, ns)
+			}
+		}
+		time.Sleep(5 * time.Millisecond)
+	}
+	return time.Now()
+}
+
 // c42Deadline gives scenario i of n an equal share of the wall budget that is left.
 func c42Deadline(start time.Time, i, n int) time.Time {
 	budget := 3600.0
@@ -771,6 +801,11 @@ func c42Deadline(start time.Time, i, n int) time.Time {
 		fmt.Sscanf(s, "%g", &budget)
 	}
 	end := start.Add(time.Duration(budget * float64(time.Second)))
+	if i == 0 {
+		// a pure function of the shared start: identical in every shard however late it was started
+		return start.Add(end.Sub(start) / time.Duration(n))
+	}
+	// later scenarios begin right after a level barrier, i.e. at (almost) the same instant everywhere
 	left := time.Until(end)
 	if left < 0 {
 		left = 0
@@ -780,7 +815,7 @@ func c42Deadline(start time.Time, i, n int) time.Time {
 
 func c42Test(t *testing.T, prop string) {
 	defer vsched.Finish(t)
-	start := time.Now()
+	start := c42SharedStart()
 	r := vsched.Rep()
 	r.Assumption("controller-to-controller traffic is intercepted by wrapping the controllers' mailboxes after the real spawn transaction; the endpoints are harness actors following the documented RequestNext/Produced/Stored/StoredAck and Delivery/Confirmed contract; volatile (no durable queue), no chunking, no controller restart")
 	scs := c42Scenarios()
